@@ -361,6 +361,16 @@ def run(prop, tier, replay=None):
     cases.append({"text": 'version: "3"\nenum E {\n    A = -2147483648,\n}\nstruct S {\n    e @ 0: E,\n}\n'})  # recorded: signed-min
     # recorded finding: an enumerator outside the i32 of `Enumeration.value`
     cases.append({"text": 'version: "3"\nenum E {\n    A = 0,\n    B = 4294967301,\n}\nstruct S {\n    e @ 0: E,\n}\n'})
+    # records at the width boundaries of the integer members of reflection.fcp: sources longer than 64 KiB (positions), with
+    # more than 65536 lines, with a line longer than 65536 columns; element counts, field / method / service ids and
+    # enumerators that need 17..32 bits
+    body = ('enum E {\n    A = 2147483647,\n    B = -2147483647,\n    C = 65536,\n}\n'
+            'struct S {\n    a @ 65536: [u8, 65536],\n    b @ 4294967295: [[u1, 70000], 2147483647],\n    c @ 16777216: [E, 4294967295],\n}\n'
+            'impl can for S {\n    id: 536870911,\n    signal a {\n        bitstart: 70000,\n    },\n}\n'
+            'service Sv @ 4294967295 {\n    method m(S) @ 4294967295 returns S,\n    method n(S) @ 65536 returns S,\n}\n')
+    for pad in ("", "/* " + "x" * 70000 + " */\n", "\n" * 66000, " " * 70000):
+        cases.append({"text": 'version: "3"\n' + pad + body})
+        rep.hist("boundary_records", "pad of %d characters" % len(pad))
     ires = run_cases("harness.reflection", "w_reflect", cases, timeout_s=60)
     lidx = [k for k, r in enumerate(ires) if "ok" in r and "rschema" in r["ok"]]
     mres = dict(zip(lidx, run_driver_parallel([{"op": "reflect", "schema": ires[k]["ok"]["rschema"]} for k in lidx])))
